@@ -66,21 +66,9 @@ func (t *token) rename(v string) {
 }
 
 func (t *token) Int() int {
-	if len(t.Text) > 2 && t.Text[:2] == "0x" {
-		v, err := strconv.ParseInt(t.Text[2:], 16, 0)
-		if err != nil {
-			panicf("error parsing hex: %v", err)
-		}
-		return int(v)
-	}
-	if len(t.Text) > 1 && t.Text[0] == '0' {
-		v, err := strconv.ParseInt(t.Text[1:], 8, 0)
-		if err != nil {
-			panicf("error parsing octal: %v", err)
-		}
-		return int(v)
-	}
-	v, err := strconv.Atoi(t.Text)
+	// every spelling of a Go integer literal: decimal, 0x / 0X, 0o, 0b, legacy octal, digit separators,
+	// and the sign that negateNud folds into the text
+	v, err := strconv.ParseInt(t.Text, 0, 64)
 	if err != nil {
 		panicf("error parsing int: %v", err)
 	}
